@@ -70,6 +70,11 @@ CLAIMS['C29'] = ('proof',
     'verifies; MD5 verification accepts iff the user exists with a {MD5} secret and the response is "md5" ++ D(secret, user, salt) - for responses carrying the md5 prefix; acceptance of the bare digest without the prefix is a recorded finding '
     '(pinned by the repository\'s own test). MD5/Argon2/PHC implementations, the hex formatting of compute_md5_password, timing and the connection state machine are assumed, not verified.',
     _B_NOTE, 'contract-based deductive verification: Verus on mechanically extracted functions with uninterpreted digests', 'DESIGN.md 5/C29')
+CLAIMS['C07'] = ('proof',
+    'Kernel contracts only: the row-path accumulator is proved as a STEP contract over an arbitrary pre-state (Verus, unbounded): accumulate(v) is the fold step of the SQL definition for COUNT/SUM/AVG/MIN/MAX and their DISTINCT variants, '
+    'finalize is COUNT n (never NULL) / NULL iff nothing was accumulated, and COUNT over any input sequence is the number of non-NULL inputs (induction lemma); the grouping key relation is the Eq/Hash laws of SqlValue (Kani, unit T-laws); '
+    'the integer SIMD kernels of the columnar path are the same definitions (unit A-simd). group_rows, execute_with_aggregation (one row for empty input, HAVING), columnar/aggregate.rs and combine() are not under contract.',
+    _B_NOTE, 'contract-based deductive verification: Verus step contracts on mechanically extracted functions + Kani on the key equality/hash laws', 'DESIGN.md 5/C07')
 NOT_APPLICABLE = {
     'C04': 'concurrency/rayon scheduling: Kani has no threads, Verus needs permission-typed code; the determinism-relevant comparator laws are claimed under C21/C08',
     'C05': 'every anchor is an AST-to-plan transformation or a join operator over Database/evaluator state: AST walks do not finish in CBMC and the code is outside the Verus subset',
